@@ -80,7 +80,11 @@ def run_one(ctx, profile, seed, run, ops=None, cfg=None, keep_ops=True):
     except Exception:
         res.harness_error = traceback.format_exc()[-3000:]
     finally:
+        _branch = dict(getattr(ctx.seams, "branch", {}))
+        _bseq = "".join(getattr(ctx.seams, "branch_seq", []))
         ctx.seams.bind(None, "sorted")
+        ctx.seams.branch = _branch
+        res.branch_seq = _bseq
     if replay:
         res.ops = list(ops)
     w.event({"end": True, "violation": res.violation and [res.violation["prop"], res.violation["check"], res.violation["step"]], "aborted": bool(res.aborted)})
@@ -89,6 +93,8 @@ def run_one(ctx, profile, seed, run, ops=None, cfg=None, keep_ops=True):
     res.counters["seam:iter_calls"] = ctx.seams.iter_calls
     res.counters["seam:permuted"] = ctx.seams.permuted_calls
     ctx.seams.iter_calls = ctx.seams.permuted_calls = 0
+    for b, c in getattr(ctx.seams, "branch", {}).items():
+        res.counters["branch:" + b] = c
     try:
         with ctx.seams.observing():
             res.nontrivial = bool(profile.nontrivial(w))
@@ -140,7 +146,7 @@ def shrink(ctx, profile, seed, run, cfg, ops, violation):
     key = (violation["prop"], violation["check"])
 
     def test(sub):
-        r = run_one(ctx, profile, seed, run, ops=sub, cfg=cfg)
+        r = profile.run(ctx, seed, run, ops=sub, cfg=cfg)
         return r.violation is not None and (r.violation["prop"], r.violation["check"]) == key
 
     # cut everything after the failing step first
@@ -149,5 +155,5 @@ def shrink(ctx, profile, seed, run, cfg, ops, violation):
         return None
     ops = ddmin(test, ops)
     ops = profile.simplify(ops, test)
-    final = run_one(ctx, profile, seed, run, ops=ops, cfg=cfg)
+    final = profile.run(ctx, seed, run, ops=ops, cfg=cfg)
     return final
